@@ -238,22 +238,22 @@ func (e *Engine) QueryQF(r *FuncResult, o *Obligation) []*Term {
 		if len(fresh) == 0 {
 			break
 		}
-		if len(fresh) > 60 {
-			fresh = fresh[:60]
+		if len(fresh) > 20 {
+			fresh = fresh[:20]
 		}
 		var added []*Term
 		for qi, f := range quant {
 			if os.Getenv("GOVC_DEBUG_INST") != "" {
 				fmt.Fprintf(os.Stderr, "INST round %d fact %d: %d fresh cands; fact=%s\n", round, qi, len(fresh), tb.Show(f)[:min(len(tb.Show(f)), 160)])
 			}
-			for _, in := range e.instantiate(f, fresh, 64) {
+			for _, in := range e.instantiate(f, fresh, 24) {
 				if !haveInst[in] && !in.IsTrue() {
 					haveInst[in] = true
 					added = append(added, in)
 				}
 			}
 		}
-		if len(insts)+len(added) > 1500 {
+		if len(insts)+len(added) > 500 {
 			break
 		}
 		insts = append(insts, added...)
